@@ -3,19 +3,22 @@
    (theories/Model/C10_PyList.v) is the CPython list.  Both are tied to /repo and to a real Python list on every run
    by props/C10.py (three-way T-seq).  Kind B: lists and Z only -- no Reals, no axioms.
 
-   FULL STATEMENT (false of the faithful model, kept visible):
+   After the fix commits 639aa3a (slices through slice.indices, Empty() for an empty result) and e8a8671 (extend uses
+   iterable.data) the slice and extend theorems are FULL STRENGTH (no guard).
+
+   FULL STATEMENT over all operations (still false of the faithful model, kept visible):
      forall C st ops, run (m_step C) st ops = run s_step st ops.
-   It fails for four root causes, each with a _refuted witness below and a _partial under the exact guard:
-     (1) __getitem__(slice) does its own index arithmetic,        (2) cls([]) evaluates arg[0],
-     (3) extend hands x._A (the bare matrix of a single value) to list.extend,
+   It fails for two remaining root causes, each with a _refuted witness below; everything else is under C10_run_refines:
+     (2) cls([]) evaluates arg[0]  (SE3([]), cls([e for e in x]) on an empty x; every empty slice of the classes that
+         override __getitem__ with cls(data[i])),
      (4) the guards test len(x) > 1, so an empty object passes as "one value".                                     *)
 From Coq Require Import ZArith List Lia Bool.
 From SM Require Import Model.C10_PyList Model.C10_SMList.
 Import ListNotations.
 Open Scope Z_scope.
 
-Definition SE3like : cls := Build_cls 4 true.      (* SE3, Quaternion, UnitQuaternion: 4 rows; SMUserList.__getitem__ *)
-Definition SVlike : cls := Build_cls 6 false.      (* SpatialVector family: __getitem__ = cls(data[i]) *)
+Definition SE3like : cls := Build_cls true.       (* poses, quaternions, twists: SMUserList.__getitem__ *)
+Definition SVlike : cls := Build_cls false.       (* SpatialVector family: __getitem__ = cls(data[i]) *)
 
 (* ---- integer index: IndexError exactly when a list would, otherwise the element a list would give, as one object;
         all lengths, all indices, every class *)
@@ -45,56 +48,39 @@ Example C10_int_index_ex :
   m_step SE3like [1;2;3] (GetItem (-4)) = ([1;2;3], Raise IndexError).
 Proof. repeat split. Qed.
 
-(* ---- slices.  Full statement  forall st a b c, m_step C st (GetSlice a b c) = s_step st (GetSlice a b c)  is FALSE. *)
-Theorem C10_slice_refuted : exists st a b c,
-  m_step SE3like st (GetSlice a b c) <> s_step st (GetSlice a b c).
-Proof. exists [1;2;3;4;5], (Some 0), (Some (-1)), None. vm_compute. discriminate. Qed.
-Print Assumptions C10_slice_refuted.
+(* ---- slices, FULL STRENGTH: for every list, start, stop and step (omitted, negative, out of range, step 0 included)
+        the result, its error kind and the state are those of a Python list *)
+Theorem C10_slice_full : forall C st a b c, own_slice C = true ->
+  m_step C st (GetSlice a b c) = s_step st (GetSlice a b c).
+Proof. intros C st a b c HC. cbn [m_step s_step]. rewrite (slice_full C st a b c HC). reflexivity. Qed.
+Print Assumptions C10_slice_full.
 
-(* one witness per way the hand-written arithmetic goes wrong (the model's value on the left, the list's on the right) *)
-Example C10_slice_witnesses :
+(* every selected position is a position of the list (so no data[k] can raise), all lengths and arguments *)
+Theorem C10_slice_positions_in_range : forall len a b c ks, 0 <= len ->
+  py_slice_indices len a b c = Ok ks -> forall k, In k ks -> 0 <= k < len.
+Proof. exact slice_indices_in_range. Qed.
+Print Assumptions C10_slice_positions_in_range.
+
+(* the cells that were wrong before the fix, now equal to the list's value *)
+Example C10_slice_examples :
   let st := [1;2;3;4;5] in
-  (* negative stop is off by one:            x[0:-1] *)
-  (snd (m_step SE3like st (GetSlice (Some 0) (Some (-1)) None)) = Ok (Obj [1;2;3;4;5]) /\
-   snd (s_step st (GetSlice (Some 0) (Some (-1)) None)) = Ok (Obj [1;2;3;4])) /\
-  (* negative start is not normalised:       x[-2:] *)
-  (snd (m_step SE3like st (GetSlice (Some (-2)) None None)) = Ok (Obj [4;5;1;2;3;4;5]) /\
-   snd (s_step st (GetSlice (Some (-2)) None None)) = Ok (Obj [4;5])) /\
-  (* negative step:                          x[::-1] *)
-  (snd (m_step SE3like st (GetSlice None None (Some (-1)))) = Raise IndexError /\
-   snd (s_step st (GetSlice None None (Some (-1)))) = Ok (Obj [5;4;3;2;1])) /\
-  (* stop beyond the end is not clamped:     x[3:9] *)
-  (snd (m_step SE3like st (GetSlice (Some 3) (Some 9) None)) = Raise IndexError /\
-   snd (s_step st (GetSlice (Some 3) (Some 9) None)) = Ok (Obj [4;5])) /\
-  (* step 0 is taken as 1:                   x[::0] *)
-  (snd (m_step SE3like st (GetSlice None None (Some 0))) = Ok (Obj [1;2;3;4;5]) /\
-   snd (s_step st (GetSlice None None (Some 0))) = Raise ValueError) /\
-  (* empty result cannot be constructed:     x[2:2]  (also for the classes that delegate to list slicing) *)
-  (snd (m_step SE3like st (GetSlice (Some 2) (Some 2) None)) = Raise IndexError /\
-   snd (m_step SVlike st (GetSlice (Some 2) (Some 2) None)) = Raise IndexError /\
-   snd (s_step st (GetSlice (Some 2) (Some 2) None)) = Ok (Obj [])).
+  snd (m_step SE3like st (GetSlice (Some 0) (Some (-1)) None)) = Ok (Obj [1;2;3;4]) /\
+  snd (m_step SE3like st (GetSlice (Some (-2)) None None)) = Ok (Obj [4;5]) /\
+  snd (m_step SE3like st (GetSlice None None (Some (-1)))) = Ok (Obj [5;4;3;2;1]) /\
+  snd (m_step SE3like st (GetSlice (Some 3) (Some 9) None)) = Ok (Obj [4;5]) /\
+  snd (m_step SE3like st (GetSlice None None (Some 0))) = Raise ValueError /\
+  snd (m_step SE3like st (GetSlice (Some 2) (Some 2) None)) = Ok (Obj []) /\
+  snd (m_step SE3like st (GetSlice (Some 1) (Some 4) (Some 2))) = Ok (Obj [2;4]) /\
+  snd (m_step SE3like st (GetSlice (Some (-7)) (Some 7) (Some (-3)))) = Ok (Obj []).
 Proof. vm_compute. repeat split. Qed.
 
-(* the guard under which the code is right: step >= 1 (or omitted), 0 <= start < stop <= len (or omitted);
-   proved for ALL lists, bounds and steps *)
-Theorem C10_slice_partial : forall C st a b c,
-  own_slice C = true -> slice_guard (zlen st) a b c = true ->
-  m_step C st (GetSlice a b c) = s_step st (GetSlice a b c) /\
-  snd (m_step C st (GetSlice a b c)) =
-    Ok (Obj (map (znth st) (py_range (start_of a) (stop_of (zlen st) b) (step_of c)))).
-Proof.
-  intros C st a b c HC G. destruct (slice_partial C st a b c HC G) as [Hm Hs].
-  cbn [m_step s_step snd]. rewrite Hm, Hs. split; reflexivity.
-Qed.
-Print Assumptions C10_slice_partial.
+(* classes whose __getitem__ is cls(data[i]) (not touched by the fix): the full statement is false -- an empty result
+   cannot be constructed -- and holds whenever the list's slice is non-empty, errors included *)
+Theorem C10_slice_delegate_refuted : exists st a b c,
+  m_step SVlike st (GetSlice a b c) <> s_step st (GetSlice a b c).
+Proof. exists [1;2;3;4;5], (Some 2), (Some 2), None. vm_compute. discriminate. Qed.
+Print Assumptions C10_slice_delegate_refuted.
 
-Example C10_slice_partial_nonvacuous :
-  slice_guard 5 (Some 1) (Some 4) (Some 2) = true /\ slice_guard 5 None None None = true /\
-  slice_guard 1000 (Some 17) None (Some 250) = true /\
-  snd (m_step SE3like [1;2;3;4;5] (GetSlice (Some 1) (Some 4) (Some 2))) = Ok (Obj [2;4]).
-Proof. vm_compute. repeat split. Qed.
-
-(* classes whose __getitem__ is cls(data[i]): right whenever the list's slice is non-empty, errors included *)
 Theorem C10_slice_delegate_partial : forall C st a b c,
   own_slice C = false ->
   (forall vs, py_getslice st a b c = Ok vs -> vs <> []) ->
@@ -111,10 +97,11 @@ Example C10_slice_delegate_ex :
 Proof. vm_compute. repeat split. Qed.
 
 (* the property's slice grid (lengths 0..5, start/stop in {None,-7..7}, step in {None,+-1,+-2,+-3}: 6 x 1792 cells),
-   decided completely: the number of cells on which model and list disagree *)
+   decided completely: the number of cells on which model and list disagree (none for SMUserList.__getitem__;
+   the empty results for the delegating classes) *)
 Theorem C10_slice_grid_census :
   Z.of_nat (length grid_slices) = 1792 /\
-  Z.of_nat (grid_disagreements SE3like) = 10204 /\ Z.of_nat (grid_disagreements SVlike) = 7422.
+  Z.of_nat (grid_disagreements SE3like) = 0 /\ Z.of_nat (grid_disagreements SVlike) = 7422.
 Proof. vm_compute. repeat split. Qed.
 Print Assumptions C10_slice_grid_census.
 
@@ -123,8 +110,8 @@ Theorem C10_iter : forall C st, m_step C st Iter = (st, Ok (Objs (map (fun t => 
 Proof. intros. cbn [m_step]. rewrite m_iter_spec. reflexivity. Qed.
 Print Assumptions C10_iter.
 
-(* ---- every operation, where the code is right.  op_ok excludes exactly: slices outside the guard, an empty object as
-        the value of setitem/append/insert, extend by a single-valued object, construction from an empty list *)
+(* ---- every operation, where the code is right.  op_ok excludes exactly: an empty object as the value of
+        setitem/append/insert, construction from an empty list (and, for the delegating classes, an empty slice) *)
 Theorem C10_step_refines : forall C st o, op_ok C st o = true -> m_step C st o = s_step st o.
 Proof. exact step_refines. Qed.
 Print Assumptions C10_step_refines.
@@ -137,29 +124,27 @@ Print Assumptions C10_run_refines.
 
 Example C10_run_refines_nonvacuous :
   let ops := [Append (Same [7]); Insert (-9) (Same [8]); GetItem (-1); SetItem 1 (Same [9]); Pop 0; Extend (Same [5;6]);
-              Extend (Same []); GetSlice (Some 1) None (Some 2); Iter; DelItem (-2); Reverse; Pop 7; SetItem 0 Other;
+              Extend (Same []); GetSlice (Some (-2)) (Some (-9)) (Some (-2)); Iter; DelItem (-2); Reverse; Pop 7; SetItem 0 Other;
+              Extend (Same [4]); GetSlice (Some 3) (Some 3) None; GetSlice None None (Some 0); Pop (-1);
               Append (Same [1;2]); CtorIter; DelSlice None None (Some (-2)); Len; Clear; Pop (-1); Alloc 2; CtorCopy] in
   run_ok SE3like [1;2;3] ops = true /\
   fst (run (m_step SE3like) [1;2;3] ops) = [0;0] /\
-  nth 7 (snd (run (m_step SE3like) [1;2;3] ops)) (Raise TypeError) = Ok (Obj [2;7;6]) /\
-  nth 11 (snd (run (m_step SE3like) [1;2;3] ops)) (Ok NoneV) = Raise IndexError.
+  nth 7 (snd (run (m_step SE3like) [1;2;3] ops)) (Raise TypeError) = Ok (Obj [5;3;9]) /\
+  nth 11 (snd (run (m_step SE3like) [1;2;3] ops)) (Ok NoneV) = Raise IndexError /\
+  nth 14 (snd (run (m_step SE3like) [1;2;3] ops)) (Ok NoneV) = Ok (Obj []) /\
+  nth 15 (snd (run (m_step SE3like) [1;2;3] ops)) (Ok NoneV) = Raise ValueError.
 Proof. vm_compute. repeat split. Qed.
 
+(* ---- extend, FULL STRENGTH: every operand of the same class, of any length (0, 1, many) *)
+Theorem C10_extend_full : forall C st ts,
+  m_step C st (Extend (Same ts)) = s_step st (Extend (Same ts)) /\ m_step C st (Extend (Same ts)) = (st ++ ts, Ok NoneV).
+Proof. intros. split; reflexivity. Qed.
+Print Assumptions C10_extend_full.
+
+Example C10_extend_ex : fst (m_step SE3like [1;2;3] (Extend (Same [9]))) = [1;2;3;9].
+Proof. reflexivity. Qed.
+
 (* the full statement is refuted for each remaining root cause *)
-Theorem C10_extend_refuted : exists st t, m_step SE3like st (Extend (Same [t])) <> s_step st (Extend (Same [t])).
-Proof. exists [1;2;3], 9. vm_compute. discriminate. Qed.
-Print Assumptions C10_extend_refuted.
-
-Example C10_extend_witness :
-  fst (m_step SE3like [1;2;3] (Extend (Same [9]))) = [1;2;3; g_row; g_row; g_row; g_row] /\
-  fst (s_step [1;2;3] (Extend (Same [9]))) = [1;2;3;9].
-Proof. vm_compute. split; reflexivity. Qed.
-
-Theorem C10_extend_partial : forall C st ts, length ts <> 1%nat ->
-  m_step C st (Extend (Same ts)) = (st ++ ts, Ok NoneV) /\ s_step st (Extend (Same ts)) = (st ++ ts, Ok NoneV).
-Proof. intros C st ts H. destruct ts as [|t [|u r]]; [| exfalso; apply H; reflexivity |]; split; reflexivity. Qed.
-Print Assumptions C10_extend_partial.
-
 Theorem C10_empty_operand_refuted : exists st,
   m_step SE3like st (Append (Same [])) <> s_step st (Append (Same [])) /\
   m_step SE3like st (Insert 1 (Same [])) <> s_step st (Insert 1 (Same [])) /\
